@@ -425,6 +425,11 @@ def gen_e2e(rng, cid, variant=None, types=None, maxit_max=25, r_max=3, prior='ze
         u0 = [0.0] * (N * K)
         v0 = [0.0] * (N * K) if directed else []
         labels0 = []
+    elif prior == 'previous':
+        # the output containers still hold the (positive, ordinary) result of an earlier call on another network
+        u0 = [0.05 + rng.unit() * 3 for _ in range(N * K)]
+        v0 = [0.05 + rng.unit() * 3 for _ in range(N * K)] if directed else []
+        labels0 = []
     else:
         u0 = [rng.choice([0.0, rng.unit() * 5, 1e300, -1.0, 1e-9]) for _ in range(N * K)]
         v0 = [rng.choice([0.0, rng.unit() * 5, -3.0]) for _ in range(N * K)] if (directed or rng.chance(0.5)) else []
